@@ -207,6 +207,11 @@ func (vc *VC) evalLoc(e SExpr, env *Env) []locSpec {
 // lvalue evaluates an addressable specification expression to (reference, type).
 func (vc *VC) lvalue(e SExpr, env *Env) (Term, types.Type) {
 	switch e := e.(type) {
+	case *SIdent:
+		// a captured variable: its cell
+		if d, ok := env.derefs[e.Name]; ok {
+			return d.cell, d.elem
+		}
 	case *SSelect:
 		// base may be a pointer value or itself an lvalue of struct type
 		var ref Term
@@ -273,7 +278,7 @@ func (vc *VC) lvalue(e SExpr, env *Env) (Term, types.Type) {
 
 func (vc *VC) tryLvalue(e SExpr, env *Env) (ref Term, t types.Type, ok bool) {
 	switch e.(type) {
-	case *SSelect, *SIndex, *SCall:
+	case *SSelect, *SIndex, *SCall, *SIdent:
 	default:
 		return Term{}, nil, false
 	}
@@ -371,10 +376,22 @@ func (f *frame) frameCheckLocs(callee string, locs []locSpec, guard Term, pos to
 			cond = Or(alts...)
 		default:
 			fresh := App(SBool, ">=", vc.rootOf(l.ref), vc.topFrame.entryAlloc)
-			cond = Or(fresh, vc.inLocs(l.ref, vc.memName(l.ti), vc.topLocs))
+			// a location behind a nil pointer is not written (callees test for nil)
+			cond = Or(fresh, vc.inLocs(l.ref, vc.memName(l.ti), vc.topLocs), vc.refIsUnderNull(l.ref))
 		}
 		vc.addObligation("frame", fmt.Sprintf("call %s assigns %s", callee, l.text), vc.con.FrameProps, pos, And(f.reach, guard), cond)
 	}
+}
+
+// refIsUnderNull: the cell address is a field/element path below the nil pointer.
+func (vc *VC) refIsUnderNull(ref Term) Term {
+	s := ref.S
+	base := ref
+	for strings.HasPrefix(s, "(fld ") || strings.HasPrefix(s, "(elem ") {
+		s = firstSexp(s[strings.Index(s, " ")+1:])
+		base = Term{s, SRef}
+	}
+	return Eq(base, TNull)
 }
 
 func pathEq(a, b []pathStep) bool {
@@ -505,7 +522,9 @@ func (f *frame) call(ins ssa.Instruction, common *ssa.CallCommon, result ssa.Val
 		resTerm = f.inline(ins, callee, con, closure, args, sig)
 	case con != nil:
 		vc.noteCallee(name, con)
+		vc.curClosure = closure
 		resTerm = f.applyContract(name, con, callee, sig, args, argTypes, pos)
+		vc.curClosure = nil
 	default:
 		resTerm = f.unknownCall(name, callee, sig, args, argTypes, pos)
 	}
@@ -524,6 +543,12 @@ func (f *frame) funcValueName(v ssa.Value) string {
 				name = shortPkg(n.Obj().Pkg().Path()) + "." + n.Obj().Name()
 			}
 			return name + "." + st.Underlying().(*types.Struct).Field(fa.Field).Name()
+		}
+	case *ssa.Extract:
+		if c, ok := x.Tuple.(*ssa.Call); ok {
+			if cn := calleeName(&c.Call); cn != "" {
+				return fmt.Sprintf("%s.result%d", cn, x.Index)
+			}
 		}
 	case *ssa.Parameter:
 		return FuncName(f.fn) + "." + x.Name()
@@ -592,6 +617,30 @@ func calleeParamNames(con *Contract, callee *ssa.Function, sig *types.Signature,
 }
 
 func (f *frame) calleeEnv(con *Contract, callee *ssa.Function, sig *types.Signature, args []Term, argTypes []types.Type, st State, old State, pkg *types.Package) *Env {
+	env := f.calleeEnv0(con, callee, sig, args, argTypes, st, old, pkg)
+	// captured variables of a closure being called
+	if cl := f.vc.curClosure; cl != nil && callee != nil && cl.Fn == callee {
+		owner := f.vc.closureFrames[cl]
+		if owner == nil {
+			owner = f
+		}
+		env.derefs = map[string]derefBinding{}
+		for i, fv := range callee.FreeVars {
+			if i >= len(cl.Bindings) {
+				break
+			}
+			b := owner.val(cl.Bindings[i])
+			if pt, ok := fv.Type().Underlying().(*types.Pointer); ok && !strings.HasPrefix(b.S, "@local:") {
+				env.derefs[fv.Name()] = derefBinding{cell: b, elem: pt.Elem()}
+			} else {
+				env.bound[fv.Name()] = TV{T: b, Ty: goTy(fv.Type())}
+			}
+		}
+	}
+	return env
+}
+
+func (f *frame) calleeEnv0(con *Contract, callee *ssa.Function, sig *types.Signature, args []Term, argTypes []types.Type, st State, old State, pkg *types.Package) *Env {
 	names := calleeParamNames(con, callee, sig, false, len(args))
 	bound := map[string]TV{}
 	for i, n := range names {
